@@ -127,7 +127,12 @@ CHECKS = {
          "without groups, native GAS as caller through onNEP17Payment, LoadScript dynamic scripts incl. a dynamic copy of the entry script, frames without "
          "ReadStates) x up to 7 accounts (signer under test, other signers, a non-signer, calling/current/entry hashes): 3.3M cells quick, 10.3M thorough. "
          "TLC also checks over the same cells that the neo-go-shaped model WitnessImpl refines the abstract spec; 5 named deviations are refuted; seeded "
-         "random signer lists (depth-3 trees, up to 4 rules, 3 signers) are judged by TLC; 32 cells per run go through signed transactions in blocks.",
+         "random signer lists (depth-3 trees, up to 4 rules, 3 signers) are judged by TLC; 32 cells per run go through signed transactions in blocks. Extension "
+         "(spec/witnessdyn, harness/c15dyn): the same rule while the contract table changes under the running invocation - a neo-go-shaped model (DAO layers "
+         "owning/inheriting ContractManagement's cache, try-wrapped call layers, FAULT / caught-exception rollback, _deploy callbacks, VM contexts with load-time "
+         "manifests) refines 'Witness!CheckX over the CURRENT table' (3 contracts, 2 groups, depth <=3, <=2 table changes per transaction, 2 transactions: 1.6M "
+         "states; 5 named deviations refuted); TLC-generated and seeded histories (self-update/destroy, re-entrant updates, deploy-and-call, THROW caught by a "
+         "caller, ABORT, interleaved test invocations) run as real signed transactions, CheckWitness asked after every step and judged by WitnessDynTrace.",
          "DESIGN.md section 4 C15",
          "Trusted: hand-assembled probe bytecode; the GetTestVM execution path; a neotest chain with all stable hardforks; the wire round trip of signers; TLC. "
          "The harness's contexts are cross-checked frame by frame against the spec's universe (mismatch = exit 2). One tolerance pinned by the repository's own "
@@ -230,11 +235,19 @@ CHECKS = {
          "limits on all pools of <=4 transactions x 240 limit records. Every cell is realised as wire bytes, parsed with NewTransactionFromBytes and offered to "
          "PoolTx and VerifyTx on chains with default and seeded Policy values; TLC (AdmissionTrace) judges Sound / FeeExact / Consistent. Proposals from real pools "
          "(TLC pack cases, an encoding sweep, seeded mixes) go through ApplyPolicyToTxSet -> block -> EncodeBinary -> DecodeBinary -> AddBlock on an independent "
-         "replica; TLC judges Proposable and WithinLimits byte-exactly.",
+         "replica; TLC judges Proposable and WithinLimits byte-exactly. Extension conflictrec (spec/conflictrec, harness/c07conflicts): the on-chain side of the "
+         "Conflicts rule is a state machine of its own; the verdict for an offered transaction is computed from the chain itself (reject / accept / open outside "
+         "the traceability window); TLC checks exhaustively (3 signers, 4 hashes, <=3 Conflicts attributes, <=4 blocks, window 2: 2.0M states) that the "
+         "code-shaped record store (StoreAsTransaction / HasTransaction / DeleteBlock / RemoveStale) answers soundly for every candidate, 5 named deviations "
+         "refuted; behaviours are replayed on a real dao.Simple (every GC order) and on pairs of real nodes (plain + RemoveUntraceableBlocks, chains crossing "
+         "height 2000, restarts, proposals as wire bytes to every node); after every block every transaction of the universe is offered to a fresh pool of every "
+         "node and ConflictRecTrace judges Sound / Admits / Proposable.",
          "DESIGN.md section 4 C07",
          "Trusted: the chainkit network, the neotest executor (preparation only), the harness's re-encoder. Chain states are prepared chains, not arbitrary histories. "
          "The fee threshold is judged for the canonical encoding; for non-minimal encodings only soundness against the canonical size and proposability are judged. "
-         "Contract-based witnesses are judged only for PoolTx/VerifyTx consistency. The replica is a second Blockchain fed wire bytes (consensus exchange is C19).",
+         "Contract-based witnesses are judged only for PoolTx/VerifyTx consistency. The replica is a second Blockchain fed wire bytes (consensus exchange is C19). "
+         "conflictrec: verdicts outside the traceability window are left open; the real collector runs twice per world (heights 2000/2001), other GC orders only "
+         "at dao level; one known finding (a collecting proposer admits a transaction naming a collected transaction, a plain node refuses the block).",
          "spec-as-oracle enumeration by TLC; TLC trace validation; wire-round-trip replication on an independent replica"),
  "C09": ("model_checking",
          "TLC exhaustively checks the code-shaped read-path model (KVSeekImpl: lookup through layers with tombstones, performSeek's merge of the sorted cached "
